@@ -568,15 +568,21 @@ Record par_case := mkCase {
   pc_seq : option (list cell);                      (* with_dask=False; None = raised *)
   pc_dask : option (list nat * list cell);          (* with_dask=True: shape, cells row-major; None = raised *)
   pc_files : option (list (nat * list pval));       (* outputs enabled: (file index, params decoded from the file) *)
-  pc_pipe : option (list minst * bool)              (* the probe instances of the pipeline in execution order (ident,
-                                                       enabled) and whether the tasks went through pickle; then every
-                                                       entry's data ends with the list of instances that EXECUTED *)
+  pc_pipe : option (list minst * bool * option (list Z))
+                                                    (* the probe instances of the pipeline in execution order (ident,
+                                                       enabled), whether the tasks went through pickle, and the settings
+                                                       of the caller's detector; then every entry's data ends with the
+                                                       list of instances that EXECUTED [and the settings the run SAW] *)
 }.
 
 Definition model_cell (p : list pval) : cell := mkCell p p 0.
 (* with an execution trace: the data ends with the idents of the models that ran, in order *)
-Definition model_cell_x (tr : option (list Z)) (p : list pval) : cell :=
-  match tr with None => model_cell p | Some e => mkCell p (p ++ [PV e]) 0 end.
+Definition model_cell_x (tr : option (list Z * option (list Z))) (p : list pval) : cell :=
+  match tr with
+  | None => model_cell p
+  | Some (e, None) => mkCell p (p ++ [PV e]) 0
+  | Some (e, Some st) => mkCell p (p ++ [PV e; PV st]) 0
+  end.
 
 Definition nat_list_eqb := list_eqb Nat.eqb.
 
@@ -619,12 +625,15 @@ Definition case_violates (c : par_case) : bool :=
 
 (* the traces the model predicts: of the sequential path (the caller's pipeline) and of the parallel path (what the
    worker receives); None in the second component = the run on the worker's copy raises *)
-Definition seq_trace (c : par_case) : option (list Z) :=
-  match pc_pipe c with None => None | Some (ms, _) => Some (executed ms) end.
-Definition dask_trace (hooks : list hook_row) (c : par_case) : option (option (list Z)) :=
+Definition seq_trace (c : par_case) : option (list Z * option (list Z)) :=
+  match pc_pipe c with None => None | Some (ms, _, st) => Some (executed ms, st) end.
+(* the detector has no pickle hook of its own: when every hooked class survives the round trip, the worker's detector
+   carries the caller's settings *)
+Definition dask_trace (hooks : list hook_row) (c : par_case) : option (option (list Z * option (list Z))) :=
   match pc_pipe c with
   | None => Some None
-  | Some (ms, pk) => match worker_models hooks pk ms with None => None | Some ms' => Some (Some (executed ms')) end
+  | Some (ms, pk, st) =>
+      match worker_models hooks pk ms with None => None | Some ms' => Some (Some (executed ms', st)) end
   end.
 
 Definition case_mismatch_cfg (cf : dask_cfg) (hooks : list hook_row) (c : par_case) : bool :=
